@@ -14,8 +14,7 @@ an item to be stored is the result `Item` of `convert_from_object`, either the
 bytes to write or the exception kind it raises.
 
 `Err.Fault` is not a Python exception: the C code would touch memory outside
-the modelled allocation, or divide by zero (`direct_typeoffsetof` with a
-zero-sized item type).
+the modelled allocation.
 
 Not modelled: item types of unknown size in `x[i]`/`x[i:j]` (the real code
 fails earlier, when the array type is built); struct-field arguments of
@@ -270,10 +269,10 @@ def typeOffsetof (arrayOrPtr : Bool) (isize : Int) (idx : PyArg) : Except Err In
   | .int i =>
     if ¬ fitsSsize i then .error .TypeError       -- "field name or array index expected"
     else if arrayOrPtr = false ∨ isize < 0 then .error .TypeError
-    else if isize = 0 then .error .Fault          -- `*offset / ct_size` with ct_size == 0: SIGFPE
     else
       let off := wrapS (i * isize)                -- MUL_WRAPAROUND
-      if off.tdiv isize ≠ i then .error .OverflowError else .ok off
+      -- the overflow test divides by the item size; it is skipped for zero-sized items
+      if isize ≠ 0 ∧ off.tdiv isize ≠ i then .error .OverflowError else .ok off
 
 /-- `ffi.offsetof("T[]", i)` / `ffi.offsetof("T *", i)`. -/
 def offsetof (isize : Int) (idx : PyArg) : Except Err Int := typeOffsetof true isize idx
